@@ -5,7 +5,7 @@ V = os.path.dirname(os.path.dirname(os.path.abspath(__file__)))
 d = open(os.path.join(V, "DESIGN.md")).read()
 res = open(os.path.join(V, "notes", "ROUND2_RESULTS.md")).read().split("\n", 2)[2].strip()
 rows = []
-for f in sorted(glob.glob(os.path.join(V, "seeded", "*-m1[67]", "meta.json"))):
+for f in sorted(glob.glob(os.path.join(V, "seeded", "*-m1[678]", "meta.json"))):
     m = json.load(open(f))
     first = None
     hist = os.path.join(os.path.dirname(f), "first_verdict.txt")
